@@ -1,7 +1,7 @@
 // C15: the real QuotaManager on a scratch directory.  One case per line:
 //   <scratch dir> then ops:  c <k> <size> <age_h> | C <k> <size> <age_h> (outside the root) | a <k> <age_h> [D] | A <k> <age_h> (outside)
 //                           d <k> | x <k> | s <max|-> | g <half hours|-> | e | r
-//   keys: file k lives at root/d<k%3>/n<k%2>/f<k> (nested dirs), outside files at <scratch>/outside/f<k>.
+//   keys: file k lives at root/d<k%3>/n<k%2>/f<k> (nested dirs), outside files at <scratch>/{outside,root-old,root2,roo}[k%4]/f<k> (an unrelated directory and siblings whose names extend / shorten the root's name).
 //   "a k h D" notifies with a '..'-decorated spelling of the path.
 // After every e / r a snapshot is printed:  rows k:size:age_h,... ; in k,k,... ; out k,k,...   (joined by " | "); "P" if the op panicked.
 use samply_quota_manager::QuotaManager;
@@ -28,6 +28,12 @@ fn list(dir: &Path, out: &mut Vec<u64>) {
     }
 }
 
+// outside the managed root: an unrelated directory, and siblings whose names extend or shorten the root's name
+const OUT_DIRS: [&str; 4] = ["outside", "root-old", "root2", "roo"];
+fn out_path(scratch: &Path, k: u64) -> PathBuf {
+    scratch.join(OUT_DIRS[(k % 4) as usize]).join(format!("f{k}"))
+}
+
 fn snapshot(qm: &QuotaManager, root: &Path, outside: &Path, base: u64) -> String {
     let rows: Vec<String> = qm
         .verif_rows()
@@ -42,7 +48,9 @@ fn snapshot(qm: &QuotaManager, root: &Path, outside: &Path, base: u64) -> String
     list(root, &mut i);
     i.sort();
     let mut o = Vec::new();
-    list(outside, &mut o);
+    for d in OUT_DIRS {
+        list(&outside.join(d), &mut o);
+    }
     o.sort();
     let f = |v: &Vec<u64>| v.iter().map(|x| x.to_string()).collect::<Vec<_>>().join(",");
     format!("rows {} ; in {} ; out {}", rows.join(","), f(&i), f(&o))
@@ -52,9 +60,11 @@ async fn run_case(toks: Vec<String>) -> String {
     let scratch = PathBuf::from(&toks[0]);
     let _ = std::fs::remove_dir_all(&scratch);
     let root = scratch.join("root");
-    let outside = scratch.join("outside");
+    let outside = scratch.clone();
     std::fs::create_dir_all(&root).unwrap();
-    std::fs::create_dir_all(&outside).unwrap();
+    for d in OUT_DIRS {
+        std::fs::create_dir_all(outside.join(d)).unwrap();
+    }
     let db = scratch.join("inventory.db");
     let base = SystemTime::now().duration_since(UNIX_EPOCH).unwrap().as_secs();
     let t = |age_h: u64| UNIX_EPOCH + Duration::from_secs(base - age_h * 3600);
@@ -65,14 +75,14 @@ async fn run_case(toks: Vec<String>) -> String {
         let n = |j: usize| toks[i + j].parse::<u64>().unwrap();
         match toks[i].as_str() {
             "c" | "C" => {
-                let p = if toks[i] == "c" { in_path(&root, n(1)) } else { outside.join(format!("f{}", n(1))) };
+                let p = if toks[i] == "c" { in_path(&root, n(1)) } else { out_path(&outside, n(1)) };
                 std::fs::create_dir_all(p.parent().unwrap()).unwrap();
                 std::fs::write(&p, vec![7u8; n(2) as usize]).unwrap();
                 qm.notifier().on_file_created(&p, n(2), t(n(3)));
                 i += 4;
             }
             "a" | "A" => {
-                let mut p = if toks[i] == "a" { in_path(&root, n(1)) } else { outside.join(format!("f{}", n(1))) };
+                let mut p = if toks[i] == "a" { in_path(&root, n(1)) } else { out_path(&outside, n(1)) };
                 let mut used = 3;
                 if toks.get(i + 3).map(|s| s.as_str()) == Some("D") {
                     let name = p.file_name().unwrap().to_owned();
